@@ -687,8 +687,10 @@ func sanitizeServerHostNamespace(server *networking.Server, namespace string) *n
 				server.Hosts[i] = namespace + "/" + parts[1] // format: %s/%s
 			} else if parts[0] == "*" {
 				if parts[1] == "*" {
+					// "*/*" selects every host of every namespace: nothing else needs to be kept, and the
+					// remaining entries of the original list must not be written into the new, shorter one.
 					server.Hosts = []string{"*"}
-					continue
+					return server
 				}
 				server.Hosts[i] = parts[1]
 			}
